@@ -387,4 +387,7 @@ def run(P, R, tier):
     from . import c06
     xq, b = c06.builder(P)
     c06.builder_guards(P, Remap(R, {'C06.MPT.1': 'C04.MPT.1'}), xq, b)
+    # serial, slot masks and reference counts distinguish instances only as far as their members are wide
+    rules.narrowing_fields(P, R, 'C04.WID.1', ('modules/iauth_core.c', 'modules/iauth_xquery.c', 'modules/iauth_class.c'))
+    rules.counter_widths(P, R, 'C04.WID.2', recs=('iauth_xquery_service', 'iauth_request'))
     return EXPLANATION, ASSUMPTIONS
